@@ -8,6 +8,7 @@ A Kani unit is contracts/<unit>/kani.toml (+ kani_harness.rs, optional spec.rs, 
     file = "bigtools/src/bbi/bbiread.rs"     # source file the harness module is appended to
     crate_dir = "bigtools"                   # optional, where `cargo kani` runs (default "bigtools")
     harness_file = "kani_harness.rs"         # included as  #[cfg(kani)] mod verif_kani_<name> { include!(..); }
+    max_cex = 1                              # optional: counterexample search for the first k failed harnesses only (default 3)
     module_path = ["parse", "parser"]         # optional: put that module inside this inline `mod a { mod b { .. } }`
                                              # (just before its closing brace) instead of at the end of the file —
                                              # needed when the items are private to a nested module
@@ -655,7 +656,7 @@ def replay(rec):
         return 2
     inp = rec.get('input') or {}
     values = inp.get('values') if isinstance(inp, dict) else None
-    if not values:
+    if values is None:   # {} is legitimate: a harness without symbolic inputs (e.g. the empty section stream)
         print('replay: no concrete values recorded')
         return 2
     repo = os.environ.get('VERIF_REPO', '/repo')
@@ -887,8 +888,8 @@ def run(prop, units, scratch, tier, repo):
         r = results[u['name']]
         for k, entry in enumerate(r['failed']):
             h = [x for x in u['harness'] if x['name'] == entry['harness']][0]
-            if k >= MAX_CEX_PER_UNIT:
-                entry['replay_result'] = 'counterexample search skipped (budget: first %d failed harnesses of a unit)' % MAX_CEX_PER_UNIT
+            if k >= int(u.get('max_cex', MAX_CEX_PER_UNIT)):
+                entry['replay_result'] = 'counterexample search skipped (budget: first %d failed harnesses of a unit)' % int(u.get('max_cex', MAX_CEX_PER_UNIT))
                 continue
             try:
                 _counterexample(u, h, entry, copy, target, env, repo, scratch)
